@@ -114,22 +114,6 @@ Proof.
     try (inversion H as [H']; apply codes_inj in H'; subst; apply str_eqb_refl).
 Qed.
 
-Lemma lex2 : forall x y, lex_ltb [0%Z; x] [0%Z; y] = (x <? y)%Z.
-Proof.
-  intros. cbn [lex_ltb]. rewrite Z.ltb_irrefl, Z.eqb_refl. cbn [orb andb].
-  rewrite andb_false_r, orb_false_r. reflexivity.
-Qed.
-Lemma lex_cons_same : forall c a b, lex_ltb (c :: a) (c :: b) = lex_ltb a b.
-Proof. intros. cbn [lex_ltb]. rewrite Z.ltb_irrefl, Z.eqb_refl. reflexivity. Qed.
-
-Lemma atom_lt_key : forall a b c, sclass a = Some c -> sclass b = Some c ->
-  atom_lt a b = Ok (lex_ltb (akey a) (akey b)).
-Proof.
-  intros a b c Ha Hb.
-  destruct a; cbn [sclass] in Ha; try discriminate; destruct b; cbn [sclass] in Hb; try discriminate;
-    try congruence; unfold atom_lt; cbn [numval akey]; rewrite ?lex2, ?lex_cons_same; reflexivity.
-Qed.
-
 (* ---------- rel on lists ---------- *)
 Fixpoint rel_list (st : bool) (l l' : list pyval) : bool :=
   match l, l' with
@@ -170,13 +154,21 @@ Qed.
 Definition rel_dict (st : bool) (kvs kvs' : list (pyval * pyval)) : bool :=
   Nat.eqb (length kvs) (length kvs')
   && forallb (fun kv => existsb (fun kv' => rel st (fst kv) (fst kv') && rel st (snd kv) (snd kv')) kvs') kvs.
+Definition nzc (kv : pyval * pyval) : bool := negb (is_zero (snd kv)).
+Definition strip (kvs : list (pyval * pyval)) : list (pyval * pyval) := filter nzc kvs.   (* +counter, zero counts only *)
 Definition rel_counter (st : bool) (kvs kvs' : list (pyval * pyval)) : bool :=
-  forallb (fun kv =>
-             existsb (fun kv' => rel st (fst kv) (fst kv') && rel st (snd kv) (snd kv')) kvs'
-             || (is_zero (snd kv) && negb (existsb (fun kv' => rel st (fst kv) (fst kv')) kvs'))) kvs
-  && forallb (fun kv' =>
-                existsb (fun kv => rel st (fst kv) (fst kv') && rel st (snd kv) (snd kv')) kvs
-                || (is_zero (snd kv') && negb (existsb (fun kv => rel st (fst kv) (fst kv')) kvs))) kvs'.
+  Nat.eqb (length (strip kvs)) (length (strip kvs'))
+  && forallb (fun kv =>
+                is_zero (snd kv)
+                || existsb (fun kv' => negb (is_zero (snd kv'))
+                                       && (rel st (fst kv) (fst kv') && rel st (snd kv) (snd kv'))) kvs') kvs.
+
+Lemma forallb_filter {A} (p f : A -> bool) : forall l,
+  forallb f (filter p l) = forallb (fun x => negb (p x) || f x) l.
+Proof. induction l as [|x l IH]; simpl; auto. destruct (p x); simpl; rewrite IH; reflexivity. Qed.
+Lemma existsb_filter {A} (p f : A -> bool) : forall l,
+  existsb f (filter p l) = existsb (fun x => p x && f x) l.
+Proof. induction l as [|x l IH]; simpl; auto. destruct (p x); simpl; rewrite IH; reflexivity. Qed.
 
 Lemma rel_map_unfold : forall st k kvs k' kvs',
   rel st (PMap k kvs) (PMap k' kvs') =
@@ -303,11 +295,6 @@ Proof.
     rewrite Forall_forall in IH. rewrite forallb_forall in Hw1, Hw2, Hw1', Hw2'. apply IH; auto.
 Qed.
 
-(* ---------- < on (k, v) pairs looks at the values only when the keys are equal ---------- *)
-Lemma pair_lt_keys : forall k v k' v', rel false k k' = false ->
-  py_lt (PTuple [k; v]) (PTuple [k'; v']) = py_lt k k'.
-Proof. intros. simpl. rewrite H. reflexivity. Qed.
-
 (* ---------- the comparable scalars: ==, < through their sort keys ---------- *)
 Lemma class_eq_key : forall st x y c c', vclass x = Some c -> vclass y = Some c' ->
   (rel st x y = true <-> skey x = skey y).
@@ -316,12 +303,13 @@ Proof.
   destruct y as [b| | | | |]; simpl in Hy; try discriminate.
   rewrite rel_atom_l. simpl. eapply atom_eq_key; eauto.
 Qed.
-Lemma class_lt_key : forall x y c, vclass x = Some c -> vclass y = Some c ->
-  py_lt x y = Ok (lex_ltb (skey x) (skey y)).
-Proof.
-  intros x y c Hx Hy. destruct x as [a| | | | |]; simpl in Hx; try discriminate.
-  destruct y as [b| | | | |]; simpl in Hy; try discriminate.
-  simpl. eapply atom_lt_key; eauto.
-Qed.
 Lemma class_hashable : forall x c, vclass x = Some c -> py_hashable x = true.
 Proof. intros x c H. destruct x as [a| | | | |]; simpl in H; try discriminate. destruct a; simpl in *; try discriminate; auto. Qed.
+
+(* Counter equality = dict equality of the zero-stripped Counters *)
+Lemma rel_counter_strip : forall st kvs kvs', rel_counter st kvs kvs' = rel_dict st (strip kvs) (strip kvs').
+Proof.
+  intros. unfold rel_counter, rel_dict. f_equal. unfold strip. rewrite forallb_filter.
+  apply forallb_ext_in. intros kv _. unfold nzc. rewrite negb_involutive. f_equal.
+  rewrite existsb_filter. reflexivity.
+Qed.
